@@ -243,8 +243,8 @@ pub fn phase_sweep_script(rng: &mut Rng, i: u64, prop: &str) -> Script {
     let mut s = Script::new(prop, "pipe");
     s.set("ctor", 0);
     s.set("zlib", 1);
-    // level 1 is the fast path with its 4096-byte rounds; a few scripts use the hash-chain path
-    s.set("level", if i % 8 == 7 { rng.pick(&[2i64, 6, 9]) } else { 1 });
+    // level 1 is the fast path with its 4096-byte rounds; every eighth script targets the lazy parser (below)
+    s.set("level", 1);
     s.set("strategy", 0);
     s.set("window_bits", 15);
     s.set("driver", rng.pick(&[0i64, 0, 2]));
@@ -252,6 +252,21 @@ pub fn phase_sweep_script(rng: &mut Rng, i: u64, prop: &str) -> Script {
     s.set("phase_from", (i * 128) as i64);
     s.set("phase_count", 128);
     s.set("phase_byte", rng.below(256) as i64);
+    if i % 8 == 7 {
+        // lazy parser, code buffer filled by compressible data, fattest steps around the fill point; the phase is
+        // shifted by r literal bytes (r code bytes) in front instead of a run
+        s.set("level", rng.pick(&[4i64, 6, 6, 9]));
+        s.set("driver", 0);
+        let body = gen::fat_step_plain(rng, 135);
+        s.set("phase_from", 0);
+        s.set("phase_noise", 1);
+        s.set_blob("phase_prefix", rng.bytes(128));
+        let n = body.len();
+        s.ops = vec![vec![(n + 5000) as i64, rng.pick(&[1000i64, 200_000, (2 * n) as i64]), 0]];
+        s.set("tail_out", rng.pick(&[4096i64, 100_000]));
+        s.set_blob("plain", body);
+        return s;
+    }
     let n = rng.range(62_000, 70_000);
     let grant = rng.pick(&[64i64, 64, 1, 4096, 200_000]);
     s.ops = vec![vec![(n + 5000) as i64, grant, 0]];
@@ -272,6 +287,44 @@ pub fn ladder_family(rng: &mut Rng, s: &mut Script) {
     let style = rng.next_u64();
     let fp = rng.pick(&[0u64, 0, 10]);
     s.ops = comp_ops(rng, plain.len(), style, &ALL_TDEFL, fp, false);
+    s.set_blob("plain", plain);
+}
+
+/// Checksum-target family: input whose Adler-32 is 0, 1 (the empty string's), has a zero half, or the largest
+/// halves; the last byte (the one that makes the low half land) is usually consumed by a call of its own.
+pub fn checksum_family(rng: &mut Rng, s: &mut Script) {
+    clear_setters(s);
+    let (ta, tb) = gen::adler_special(rng);
+    let pl = rng.pick(&[0usize, 10, 300, 3000]);
+    let mut plain = gen::adler_target(rng, ta, tb, pl);
+    let core = plain.len();
+    if rng.chance(1, 3) {
+        let extra = rng.range(1, 40);
+        let e = rng.bytes(extra);
+        plain.extend_from_slice(&e);
+    }
+    let n = plain.len();
+    let big = (n + n / 8 + 400) as i64;
+    let grant = |rng: &mut Rng| rng.pick(&[big, big, 4096, 64, 1]);
+    let mut ops: Vec<Vec<i64>> = Vec::new();
+    let fl = rng.pick(&[0i64, 0, 0, 2, 4]);
+    match rng.below(4) {
+        0 => ops.push(vec![n as i64, grant(rng), fl]),
+        1 => {
+            ops.push(vec![(core - 1) as i64, grant(rng), 0]);
+            ops.push(vec![1, grant(rng), fl]);
+        }
+        2 => {
+            ops.push(vec![core as i64, grant(rng), 0]);
+            ops.push(vec![(n - core) as i64, grant(rng), fl]);
+        }
+        _ => {
+            let style = rng.next_u64();
+            ops = comp_ops(rng, n, style, &ALL_TDEFL, 10, false);
+        }
+    }
+    s.ops = ops;
+    s.set("putfail", 0);
     s.set_blob("plain", plain);
 }
 
@@ -302,6 +355,10 @@ pub fn gen_c02(rng: &mut Rng, i: u64, tier: Tier) -> Script {
     }
     if rng.chance(1, 50) {
         ladder_family(rng, &mut s);
+        return s;
+    }
+    if rng.chance(1, 300) {
+        checksum_family(rng, &mut s);
         return s;
     }
     if rng.chance(1, 25) {
@@ -519,7 +576,33 @@ fn far_repeat_plain(rng: &mut Rng, w: usize) -> Vec<u8> {
     v
 }
 
-pub fn gen_c11(rng: &mut Rng, _i: u64, _tier: Tier) -> Script {
+/// Data of period P (a random block of P bytes repeated): with P just beyond a window of 2^w every repeat is a
+/// match candidate that the declared window forbids.
+fn periodic_plain(rng: &mut Rng, period: usize, total: usize) -> Vec<u8> {
+    let block = rng.bytes(period);
+    let mut v = Vec::with_capacity(total + period);
+    while v.len() < total {
+        v.extend_from_slice(&block);
+    }
+    v.truncate(total);
+    v
+}
+
+pub fn gen_c11(rng: &mut Rng, i: u64, _tier: Tier) -> Script {
+    if i < 16 {
+        // every phase of the self-initiated block flush (see phase_sweep_script) for reduced windows, on data
+        // whose only redundancy lies just beyond the declared window
+        let mut s = phase_sweep_script(rng, 2 * i, "C11");
+        let w = rng.pick(&[12usize, 12, 13, 14]);
+        s.set("window_bits", w as i64);
+        s.set("level", rng.pick(&[1i64, 1, 1, 6, 9]));
+        s.set("strategy", rng.pick(&[0i64, 0, 4]));
+        s.set("clauses", PC_C11);
+        let period = (1usize << w) + rng.range(1, 300);
+        let total = rng.range(62_000, 70_000);
+        s.set_blob("plain", periodic_plain(rng, period, total));
+        return s;
+    }
     let mut s = Script::new("C11", "pipe");
     s.set("ctor", 0);
     s.set("zlib", 1);
@@ -554,7 +637,18 @@ pub fn gen_c11(rng: &mut Rng, _i: u64, _tier: Tier) -> Script {
             s.set("setter2_zlib", 1);
         }
     }
-    let plain = if rng.chance(4, 5) { far_repeat_plain(rng, w) } else { { let pn = rng.range(0, 4000); gen::plaintext(rng, pn) } };
+    let long_periodic = (12..=14).contains(&w) && rng.chance(1, 150);
+    let plain = if long_periodic {
+        // hundreds of look-ahead rounds in one stream: bookkeeping that drifts a few bytes per round shows late
+        let period = (1usize << w) + rng.range(1, 400);
+        let total = rng.range(300_000, 600_000);
+        periodic_plain(rng, period, total)
+    } else if rng.chance(4, 5) {
+        far_repeat_plain(rng, w)
+    } else {
+        let pn = rng.range(0, 4000);
+        gen::plaintext(rng, pn)
+    };
     let n = plain.len();
     let style = rng.next_u64();
     s.ops = { let fp = rng.pick(&[0u64, 0, 10, 30]); comp_ops(rng, n, style, &[1, 2, 3, 7], fp, false) };
@@ -575,6 +669,11 @@ pub fn gen_c09(rng: &mut Rng, i: u64, tier: Tier) -> Script {
         s.set("window_bits", rng.range(8, 15) as i64);
     }
     s.set("clauses", PC_C09);
+    if rng.chance(1, 100) {
+        checksum_family(rng, &mut s);
+        s.set("zlib", 1);
+        return s;
+    }
     if rng.chance(1, 30) {
         let plain = boundary_family(rng, &mut s);
         s.set_blob("plain", plain);
